@@ -14,10 +14,10 @@ package scorer
 //@   modifies constituents[0].Score, constituents[0].Expl, constituents[0].FieldTermLocations
 //@   ensures result == constituents[0]
 
-// the kNN variant (score and explanation breakdown) is not under contract; callers under contract require it off
+// the kNN variant (score and explanation breakdown) is not under contract: functions under contract
+// must show that they never reach it (their preconditions require the score breakdown to be off)
 //@ func DisjunctionQueryScorer.ScoreAndExplBreakdown
 //@   props C08 C02
 //@   mode int
-//@   trusted the kNN score-breakdown variant is not under contract
-//@   requires s != nil
-//@   modifies fields(search.DocumentMatch), mem(*search.DocumentMatch), search.DocumentMatchPool.avail
+//@   trusted the kNN score-breakdown variant is not under contract; its precondition is false, so every caller under contract proves the call unreachable
+//@   requires false
